@@ -286,3 +286,116 @@ def scan_coverage(ctx):
                           'is never converted - output differs from the reference filter' % (w0, w0, l, c[0], r))
     if not n:
         ctx.anchor_missing('BCJFilter::*_code')
+
+
+# --------------------------------------------------------------------------- OWED-OUTPUT
+
+@rule('OWED-OUTPUT', ['C05'], floor=1)
+def owed_output(ctx):
+    """BCJ2Reader is given the size of its output. When one of its inputs reports end of data (inner read count
+    0), `read` may return Ok only if the declared size has been produced (`uncompressed_size == 0` on the path)
+    or if it returns a non-zero count (progress; the condition is met again on the next call). Every other path
+    from the zero count to an `Ok(..)` return tells the caller "end of stream" with output still owed: a
+    truncated input passes for a complete, shorter one. Decided on path conditions (acyclic paths from the zero
+    edge, equal tests correlated, contradictory paths pruned)."""
+    from rules.io import is_trait_call, READ_TRAITS
+    from rules.errors import path_conds
+    F = ctx.facts
+    fs = [f for f in F.fns if f.self_adt and last_seg(f.self_adt) == 'BCJ2Reader' and f.impl and
+          last_seg(f.impl.get('trait')) == 'Read' and f.name == 'read']
+    if not fs:
+        ctx.anchor_missing('<BCJ2Reader as Read>::read')
+        return
+    f = fs[0]
+    prov = Prov(f)
+    key = '%s:input-end-with-output-owed-is-not-Ok' % f.key
+    back = {(t, h) for t in f.reachable for h in f.succ[t] if f.dominates(h, t)}
+    starts = []
+    for b in sorted(f.reachable):
+        t = f.blocks[b]['term']
+        if t['k'] != 'switch':
+            continue
+        se = switch_edges(f, b)
+        if not se:
+            continue
+        e = prov.operand(t['discr'], 0, '%d:T' % b)
+        c = norm_cmp(e)
+        if not c or c[0] not in ('Eq', 'Ne'):
+            continue
+        sides = [c[1], c[2]]
+        if not any(x[0] == 'const' and x[2] == 0 for x in sides):
+            continue
+        other = [x for x in sides if not (x[0] == 'const' and x[2] == 0)]
+        if not other or not any(y[0] == 'call' and last_seg(y[1]) == 'read' and 'Read' in y[1] for y in expr_walk(other[0])):
+            continue
+        zero_tgt = se[1] if c[0] == 'Eq' else se[0]
+        starts.append((b, zero_tgt))
+    if not starts:
+        ctx.violation(key, f.loc(0), 'no test of an inner read count against zero found: cannot locate the end-of-input handling (fail closed)')
+        return
+    okblocks = {}
+    for b in f.reachable:
+        for s in f.blocks[b]['stmts']:
+            if s['k'] == 'assign' and s['lhs']['l'] == 0 and not s['lhs']['p'] and s['rv']['r'] == 'agg' and s['rv'].get('variant_name') == 'Ok':
+                okblocks[b] = s['rv']['ops'][0]
+
+    def cond_key(c):
+        return (expr_str(c[1]), expr_str(c[2]))
+
+    bad = None
+    npaths = 0
+    for sb, start in starts:
+        stack = [(start, ((sb, start),), (start,))]
+        while stack and bad is None:
+            b, path, visited = stack.pop()
+            npaths += 1
+            if npaths > 20000:
+                bad = (b, 'path budget exceeded (not decided, fail closed)')
+                break
+            if b in okblocks:
+                conds = []
+                for cond, pol in path_conds(f, prov, path):
+                    nc = norm_cmp(cond, pol) if cond[0] in ('bin', 'un') else None
+                    if nc:
+                        conds.append(nc)
+                eqs = {cond_key(c) for c in conds if c[0] == 'Eq'}
+                nes = {cond_key(c) for c in conds if c[0] == 'Ne'}
+                if eqs & nes:
+                    continue   # contradictory: infeasible
+                retop = okblocks[b]
+                rl = op_local(retop)
+                rname = f.locals[rl].get('name') if rl is not None else None
+                rdefs = [d for d in f.whole_defs(rl)] if rl is not None else []
+                # the returned operand is a copy of a named local
+                src = None
+                if rl is not None:
+                    e = prov.operand(retop, 0, '%d:R' % b)
+                    src = expr_str(e)
+                just = False
+                for c in conds:
+                    a, bb_ = expr_str(c[1]), expr_str(c[2])
+                    zero = (c[2][0] == 'const' and c[2][2] == 0) or (c[1][0] == 'const' and c[1][2] == 0)
+                    if not zero:
+                        continue
+                    if c[0] == 'Eq' and ('uncompressed_size' in a or 'uncompressed_size' in bb_):
+                        just = True
+                    if c[0] in ('Ne', 'Lt') and src is not None and src in (a, bb_):
+                        just = True
+                if op_const(retop) is not None and (op_const(retop) or {}).get('v') not in (0, None):
+                    just = True
+                if not just:
+                    bad = (b, 'returns Ok(%s) after an input reported end of data, on a path that neither established '
+                              '`uncompressed_size == 0` nor a non-zero count: a truncated input ends the stream cleanly with output '
+                              'still owed (path conditions: %s)' % (src, '; '.join('%s %s %s' % (expr_str(c[1]), c[0], expr_str(c[2])) for c in conds[:8])))
+                continue
+            t = f.blocks[b]['term']
+            for s in f.succs(b):
+                if (b, s) in back or s in visited:
+                    continue
+                stack.append((s, path + ((b, s),) if t['k'] == 'switch' else path, visited + (s,)))
+    # stability of the correlated operands in the explored region
+    if bad:
+        ctx.violation(key, f.loc(bad[0]), bad[1])
+    else:
+        ctx.ok(key, f.loc(starts[0][0]), '%d zero-count test(s); %d path prefixes explored: every Ok return after an exhausted input is under '
+               'uncompressed_size == 0 or returns a non-zero count' % (len(starts), npaths))
